@@ -528,12 +528,29 @@ func registerStrings(in *Interp) {
 		}
 		return n.X.(*base64.Encoding)
 	}
+	// A symbolic text is encoded as an opaque injective token tagged with the alphabet and
+	// padding of the encoding that wrote it. Decoding with the same kind of encoding gives
+	// the text back; with another alphabet it fails exactly when some 6-bit group is 62
+	// or 63 (the two alphabets differ there only), with another padding convention exactly
+	// when the length is not a multiple of three.
+	encKind := func(e *base64.Encoding) string {
+		switch e.EncodeToString([]byte{0xfb, 0xff}) {
+		case "+/8=":
+			return "S"
+		case "+/8":
+			return "s"
+		case "-_8=":
+			return "U"
+		case "-_8":
+			return "u"
+		}
+		panic(unsupported("base64 encoding with a custom alphabet"))
+	}
 	in.reg("(*encoding/base64.Encoding).EncodeToString", func(th *Thread, fn *ssa.Function, a []Value) Value {
 		s := bytesToStr(a[1])
 		if r, ok := s.(*Rope); ok {
-			// opaque injective token
 			th.stub("base64.EncodeToString:symbolic")
-			segs := append([]Seg{{S: "b64("}}, r.Segs...)
+			segs := append([]Seg{{S: "b64" + encKind(encName(th, a[0])) + "("}}, r.Segs...)
 			segs = append(segs, Seg{S: ")"})
 			return &Rope{Segs: segs}
 		}
@@ -542,8 +559,57 @@ func registerStrings(in *Interp) {
 	in.reg("(*encoding/base64.Encoding).DecodeString", func(th *Thread, fn *ssa.Function, a []Value) Value {
 		if r, ok := a[1].(*Rope); ok {
 			n := len(r.Segs)
-			if n >= 2 && r.Segs[0].S == "b64(" && r.Segs[n-1].S == ")" {
+			head := ""
+			if n >= 2 {
+				head = r.Segs[0].S
+			}
+			if n >= 2 && len(head) == 5 && strings.HasPrefix(head, "b64") && head[4] == '(' && r.Segs[n-1].S == ")" {
 				inner := normRope(&Rope{Segs: r.Segs[1 : n-1]})
+				wrote, reads := string(head[3]), encKind(encName(th, a[0]))
+				if wrote == reads {
+					return Tuple{strToBytes(inner), Iface{}}
+				}
+				var bs []Value
+				switch x := inner.(type) {
+				case string:
+					bs = strToBytes(x)
+				case *Rope:
+					var ok bool
+					if bs, ok = x.bytes(); !ok {
+						panic(unsupported("base64: text written with one encoding and read with another holds a number of unknown length"))
+					}
+				}
+				bad := sym.False
+				if strings.ToLower(wrote) != strings.ToLower(reads) { // other alphabet
+					bv := func(v Value) *sym.Term { return toBV(v, 8) }
+					c := func(x uint64) *sym.Term { return sym.BVConst(x, 8) }
+					ge62 := func(t *sym.Term) { bad = sym.Or(bad, sym.BVCmp("bvule", c(62), t)) }
+					for i := 0; i < len(bs); i += 3 {
+						b0 := bv(bs[i])
+						ge62(sym.BVBin("bvlshr", b0, c(2)))
+						lo0 := sym.BVBin("bvshl", sym.BVBin("bvand", b0, c(3)), c(4))
+						if i+1 >= len(bs) {
+							ge62(lo0)
+							break
+						}
+						b1 := bv(bs[i+1])
+						ge62(sym.BVBin("bvor", lo0, sym.BVBin("bvlshr", b1, c(4))))
+						lo1 := sym.BVBin("bvshl", sym.BVBin("bvand", b1, c(15)), c(2))
+						if i+2 >= len(bs) {
+							ge62(lo1)
+							break
+						}
+						b2 := bv(bs[i+2])
+						ge62(sym.BVBin("bvor", lo1, sym.BVBin("bvlshr", b2, c(6))))
+						ge62(sym.BVBin("bvand", b2, c(63)))
+					}
+				}
+				if (wrote == strings.ToUpper(wrote)) != (reads == strings.ToUpper(reads)) && len(bs)%3 != 0 { // other padding
+					bad = sym.True
+				}
+				if th.branch(fromBoolTerm(bad)) {
+					return Tuple{[]Value(nil), th.newError("illegal base64 data")}
+				}
 				return Tuple{strToBytes(inner), Iface{}}
 			}
 			panic(unsupported("base64 decode of symbolic string"))
